@@ -3,7 +3,7 @@ import ast
 
 from sa.loader import AnalysisError, norm, walk_local
 from sa.cfg import cfg_of
-from .common import analysis, names_in, str_consts_compared, isinstance_types, true_facts
+from .common import analysis, names_in, str_consts_compared, isinstance_types, true_facts, conjuncts, ne_texts, eq_texts
 from . import c17
 
 PROP = "C15"
@@ -136,7 +136,8 @@ def run(ctx):
     ctx.rule("C15.R6", "union: encoder wraps non-null values under the branch label, decoder maps None <-> 'null' and unwraps a single-key object; labels are names / type names", floor=3)
     wi = encJ.methods["write_index"]
     tests = [n for n in walk_local(wi.node) if isinstance(n, ast.If)]
-    ok = len(tests) == 1 and norm(tests[0].test) in ("symbol != Null() and self._write_union_type", "self._write_union_type and symbol != Null()") and any("write_object_key(alternative_symbol.get_label(index))" in norm(s) for s in tests[0].body) and any("write_object_start" in norm(s) for s in tests[0].body) and any("UnionEnd" in norm(s) for s in tests[0].body)
+    symw = "symbol"
+    ok = len(tests) == 1 and len(conjuncts(tests[0].test)) == 2 and "self._write_union_type" in conjuncts(tests[0].test) and bool(ne_texts(symw, "Null()") & conjuncts(tests[0].test)) and any("write_object_key(alternative_symbol.get_label(index))" in norm(s) for s in tests[0].body) and any("write_object_start" in norm(s) for s in tests[0].body) and any("UnionEnd" in norm(s) for s in tests[0].body)
     ctx.check("C15.R6", "encoder: non-null branch -> {label: value}; null stays null", ok, wi.where(), f"write_index: {norm(tests[0].test) if tests else ''}", "union values must be wrapped as {branch name: value} except null")
     ri = decJ.methods["read_index"]
     ok = sum(1 for n in walk_local(ri.node) if isinstance(n, ast.Assign) and norm(n) == "label = 'null'") == 2 and sum(1 for n in walk_local(ri.node) if isinstance(n, ast.Call) and n.func.__class__ is ast.Attribute and n.func.attr == "popitem") == 2 and any(norm(n) == "index = alternative_symbol.labels.index(label)" for n in walk_local(ri.node) if isinstance(n, ast.Assign))
